@@ -12,6 +12,7 @@ search : independent run-length counter on rows / diagonals of
          `recurrence_matrix()`, matrix mode vs sequential mode, scalar measures
 """
 import itertools
+import math
 from fractions import Fraction
 
 import numpy as np
@@ -269,6 +270,7 @@ def run(ctx):
     layouts(ctx, K, rng, nprng, quick)
     objects_round3(ctx, RecurrencePlot, rng, nprng, quick)
     bootstrap(ctx, K, RecurrencePlot, rng, nprng, quick)
+    rounding(ctx, rng, quick)
     doubles(ctx, K, RecurrencePlot, rng, nprng, quick)
     criteria_and_subclasses(ctx, rng, nprng, quick)
     scalar_correspondence(ctx)
@@ -702,7 +704,7 @@ def float_matrix(E, eps):
         for b in range(n):
             d = 0.0
             for x, y in zip(E[a], E[b]):
-                with np.errstate(invalid="ignore"):
+                with np.errstate(invalid="ignore", over="ignore"):
                     t = abs(float(np.float64(x) - np.float64(y)))
                 if t > d:
                     d = t
@@ -713,11 +715,25 @@ def float_matrix(E, eps):
 def double_embedding(rng, n, dim):
     """doubles whose differences are NOT all representable (exponents far apart), a few infinities
     and NaNs; returns the array and a list of thresholds at / next to its distances"""
-    kind = rng.choice(["gap", "gap", "tenths", "f32gap"])
+    kind = rng.choice(["gap", "gap", "tenths", "f32gap", "subnormal", "overflow"])
     E = np.zeros((n, dim))
     for a in range(n):
         for l in range(dim):
-            if kind == "tenths":
+            if kind == "overflow":
+                # round 5: doubles whose DIFFERENCE overflows to inf (not reachable through the
+                # class, whose embedding is float32-born; the kernels accept any doubles): the
+                # driver's float structure `xOpsO rnd64` overflows to inf from 2^1024 on.
+                E[a, l] = rng.choice([1.7e308, -1.7e308, 1e308, -1e308, 0.0, 1.0, 8.9e307, -8.99e307])
+            elif kind == "subnormal":
+                # round 5: samples / differences in and around the subnormal range (gradual
+                # underflow: the last place is clamped at 2^-1074; a difference of doubles there is
+                # exact -- theorem rnd64_eq_rn53_on_differences)
+                E[a, l] = rng.choice([0.0, 5e-324 * rng.randrange(0, 9), 2.0 ** -1022,
+                                      2.0 ** -1022 + 5e-324 * rng.randrange(0, 5),
+                                      2.0 ** -1021 - 5e-324 * rng.randrange(0, 3),
+                                      -5e-324 * rng.randrange(0, 4), 2.0 ** -1060 * rng.randrange(0, 4),
+                                      1.5 * 2.0 ** -1000])
+            elif kind == "tenths":
                 E[a, l] = rng.randrange(0, 12) / 10
             elif kind == "f32gap":
                 base = rng.choice([0.0, 1.0, 3.0, 0.5])
@@ -744,11 +760,78 @@ def double_embedding(rng, n, dim):
                 x, y = rng.choice(col), rng.choice(col)
                 d = abs(x - y)          # the rounded distance: a threshold exactly there is the
                 near += [d, d, float(np.nextafter(d, np.inf))]     # case rounding can decide
+    if kind == "overflow":
+        cands = [np.inf, np.inf, 1.7976931348623157e308, 1e308, 1.0]
+    if kind == "subnormal":
+        cands = [5e-324, 1e-323, 2.0 ** -1022, 2.0 ** -1060, 2.0 ** -1000, 0.0, -5e-324, np.inf, 1.0]
     if near and rng.random() < 0.5:
         cands = near
     if rng.random() < 0.05:
         cands = [float("nan")]
     return E, kind, special, float(rng.choice(cands))
+
+
+def rounding(ctx, rng, quick):
+    """round 5: the rounding `rnd64` of the model itself against IEEE binary64 as this machine
+    executes it: (a) `abs(a - b)` of two doubles (numpy float64 subtraction), (b) the correctly
+    rounded conversion of an arbitrary rational (`float(Fraction)`: CPython's correctly rounded
+    true division, gradual underflow included): ties, exponent boundaries, subnormals."""
+    reqs, impl = [], []
+    specials = [0.0, 5e-324, 1e-323, 2.0 ** -1074 * (2 ** 52 - 1), 2.0 ** -1022, 2.0 ** -1021,
+                1.0, float(np.nextafter(1.0, 0)), float(np.nextafter(1.0, 2)), 0.1, 0.3, 1e300, 2.0 ** 1000,
+                2.0 ** 53, 2.0 ** 53 + 2, 3.0, 1e-310, 4.9e-320]
+
+    def rand_double():
+        r = rng.random()
+        if r < 0.3:
+            return rng.choice(specials) * rng.choice([1, 1, -1])
+        if r < 0.6:
+            return math.ldexp(rng.randrange(0, 2 ** 53), rng.randrange(-1074, -1000)) * rng.choice([1, -1])
+        if r < 0.8:
+            return math.ldexp(rng.randrange(0, 2 ** 53), rng.randrange(-120, 60)) * rng.choice([1, -1])
+        return rng.uniform(-4, 4)
+
+    for c in range(60 if quick else 600):
+        prs, exp = [], []
+        for _ in range(8):
+            if rng.random() < 0.55:
+                a, b = rand_double(), rand_double()
+                if rng.random() < 0.3:
+                    b = a + math.ldexp(rng.randrange(-3, 4), rng.randrange(-1074, -1040))
+                with np.errstate(over="ignore"):
+                    d = abs(float(np.float64(a) - np.float64(b)))
+                if not math.isfinite(d):
+                    continue
+                prs.append(f"{enc_q(frac(a))},{enc_q(frac(b))}")
+                exp.append(enc_q(frac(d)))
+                ctx.count("rounding:difference-of-doubles" +
+                          (":subnormal" if 0 < d < 2.0 ** -1022 else ""))
+            else:
+                # an arbitrary rational: ties (odd multiples of half an ulp), near powers of two,
+                # non-dyadic, subnormal
+                k = rng.choice(["tie", "tie-subnormal", "thirds", "boundary", "tiny"])
+                if k == "tie":
+                    q = Fraction(2 * rng.randrange(2 ** 52, 2 ** 53) + 1, 2) * Fraction(2) ** rng.randrange(-1070, 900)
+                elif k == "tie-subnormal":
+                    q = Fraction(2 * rng.randrange(0, 2 ** 20) + 1, 2) * Fraction(1, 2 ** 1074)
+                elif k == "thirds":
+                    q = Fraction(rng.randrange(1, 10 ** 6), 3 * rng.randrange(1, 10 ** 6)) * Fraction(2) ** rng.randrange(-1090, 60)
+                elif k == "boundary":
+                    q = Fraction(2) ** rng.randrange(-1076, 60) * (1 + Fraction(rng.randrange(-3, 4), 2 ** rng.choice([53, 54, 55, 60])))
+                else:
+                    q = Fraction(rng.randrange(0, 40), rng.randrange(1, 9)) * Fraction(1, 2 ** 1075)
+                if q < 0 or q >= Fraction(2) ** 1023:
+                    continue
+                prs.append(f"0,{enc_q(q)}")
+                exp.append(enc_q(Fraction(float(q))))
+                ctx.count(f"rounding:rational={k}")
+        if not prs:
+            continue
+        reqs.append("rnd64 " + ";".join(prs))
+        impl.append(",".join(exp))
+        ctx.case(("rnd64", ";".join(prs)), True, {"rnd64": prs[:2]} if c < 3 else None)
+    ctx.correspond("model rnd64 (round-to-nearest-even, 53 bits, gradual underflow) == IEEE binary64 of "
+                   "this machine: |a - b| of doubles and correctly rounded rationals", reqs, impl)
 
 
 def doubles(ctx, K, RecurrencePlot, rng, nprng, quick):
@@ -758,13 +841,19 @@ def doubles(ctx, K, RecurrencePlot, rng, nprng, quick):
     with infinite samples in both storage modes (matrix of `set_fixed_threshold` = model
     `fixedThresholdX`, histograms = run-length counts of the implementation's own matrix)."""
     reqs, impl = [], []
+    lreqs, limpl = [], []
     for c in range(120 if quick else 1200):
         n = rng.choice([1, 2, 3, 3, 4, 5, 6, 8, 11] + ([] if quick else [17, 30]))
         dim = rng.choice([1, 1, 2, 3])
         E, kind, special, eps = double_embedding(rng, n, dim)
         M = np.isnan(E).sum(axis=1) != 0
         Rex = float_matrix(E.tolist(), eps)
-        if np.isfinite(E).all() and np.isfinite(eps):
+        overflows = False
+        if kind == "overflow":
+            fin = [[float(x) for x in E[:, l] if np.isfinite(x)] for l in range(dim)]
+            overflows = any(c and float(max(c)) - float(min(c)) == np.inf for c in fin)
+            ctx.count("doubles:a-finite-difference-overflows" if overflows else "doubles:overflow-kind-without-overflow")
+        if np.isfinite(E).all() and np.isfinite(eps):   # overflow included (binary64_overflow_subset_exact)
             # how often does binary64 rounding of |a - b| decide a cell differently from exact
             # arithmetic (theorem round_subset: only ever by dropping a recurrence)
             Rq = sup_matrix(E.tolist(), eps)
@@ -774,6 +863,19 @@ def doubles(ctx, K, RecurrencePlot, rng, nprng, quick):
                     ctx.fail({"kind": "kernel-doubles", "what": "rounding invented a recurrence"},
                              "a pair is recurrent in doubles but not in exact arithmetic",
                              {"E": enc_xmat(E.tolist()), "eps": repr(eps)})
+        # round 5: the matrix mode's distance kernel against its two outer loops AS WRITTEN
+        # (generated `supremum_rp_loops`, proved equal to the closed form of the model)
+        if n <= 11:
+            try:
+                Dm = np.array(K._supremum_distance_matrix_rp(n, dim, np.ascontiguousarray(E)))
+                lreqs.append(f"xdistloops b64 {n} {dim} {enc_xmat(E.tolist())}")
+                limpl.append(enc_xmat(Dm.tolist()))
+                ctx.count("kernel:_supremum_distance_matrix_rp(doubles)")
+            except Exception as e:  # noqa
+                ctx.fail({"kind": "kernel-doubles", "kernel": "_supremum_distance_matrix_rp",
+                          "error": type(e).__name__},
+                         f"_supremum_distance_matrix_rp raised {type(e).__name__}: {e}",
+                         {"E": enc_xmat(E.tolist())})
         for name, fn, mv in (("xvertline_seq", K._vertline_dist_sequential, False),
                              ("xdiagline_seq", K._diagline_dist_sequential, False),
                              ("xvertline_seq_mv", K._vertline_dist_sequential_missingvalues, True),
@@ -793,7 +895,7 @@ def doubles(ctx, K, RecurrencePlot, rng, nprng, quick):
             req = f"{name} b64 {n} {dim} {enc_xmat(E.tolist())} {enc_x(eps)}"
             if mv:
                 req += " " + enc_vec(M)
-            reqs.append(req)
+            reqs.append(req)            # round 5: the driver's float structure has the overflow
             impl.append(got)
             ctx.count(f"kernel:{name}")
             ctx.count(f"doubles:data={kind}")
@@ -815,14 +917,24 @@ def doubles(ctx, K, RecurrencePlot, rng, nprng, quick):
                           "eps": repr(eps), "M": M.tolist(), "expected": exp, "observed": got})
     ctx.correspond("generated kernels at xOps(binary64) == compiled sequential kernels on doubles "
                    "with inf / nan / rounded differences", reqs, impl)
+    ctx.correspond("outer loops of _supremum_distance_matrix_rp as written (generated folds, binary64) == "
+                   "compiled distance kernel on doubles with inf / nan / rounded differences", lreqs, limpl)
 
     # (b) object level: infinite samples
     reqs, impl = [], []
-    for c in range(40 if quick else 400):
+    mreqs, mimpl = [], []
+    for c in range(150 if quick else 1500):
         n = rng.randrange(2, 12 if quick else 30)
         den = rng.choice([2, 4])
         dimts = rng.choice([1, 1, 2])
         ts = np.array([[rng.randrange(0, 3 * den) / den for _ in range(dimts)] for _ in range(n)])
+        wide = rng.random() < 0.3
+        if wide:
+            # round 5: float32 samples 30-60 binades apart: the double differences are rounded
+            ts = np.array([[float(np.float32(rng.choice([0.0, 1.0, 0.5, 3.0])))
+                            + float(np.float32(rng.randrange(0, 5) * 2.0 ** -rng.choice([30, 41, 52, 60])))
+                            * rng.choice([0, 1]) for _ in range(dimts)] for _ in range(n)])
+            ctx.count("object4:float32-samples-far-apart")
         kw = {}
         if dimts == 1 and n >= 6 and rng.random() < 0.3:
             kw = {"dim": 2, "tau": rng.choice([1, 2])}
@@ -834,6 +946,8 @@ def doubles(ctx, K, RecurrencePlot, rng, nprng, quick):
                 ts[a, rng.randrange(dimts)] = np.nan
         mv = bool(np.isnan(ts).any()) and rng.random() < 0.8
         thr = rng.choice([1 / den, 2 / den, 3 / den, np.inf])
+        if wide:
+            thr = rng.choice([1.0, 1.0, 0.5, float(np.nextafter(1.0, 2)), 2.5, np.inf])
         dt = rng.choice([np.float32, np.float64])
         replay = {"time_series": [[repr(float(x)) for x in r] for r in ts], "dtype": np.dtype(dt).name,
                   "threshold": repr(float(thr)), "missing_values": mv, "kwargs": kw}
@@ -857,6 +971,29 @@ def doubles(ctx, K, RecurrencePlot, rng, nprng, quick):
         Mk = np.isnan(emb).sum(axis=1) != 0
         reqs.append(f"xmatrix b64 {emb.shape[1]} {int(mv)} {enc_xmat(emb.tolist())} {enc_x(thr)}")
         impl.append(f"{enc_mat(R)} {enc_vec(Mk)}")
+        # round 5: the methods as wholes (model `Model/LineDistMethods.lean`): both storage modes,
+        # the numerator of recurrence_rate(), white_vertline_dist() / its NotImplementedError
+        try:
+            parts = []
+            for sparse in (False, True):
+                rps, dd, vv = res[sparse]
+                rr = float(rps.recurrence_rate()) * N * N
+                if abs(rr - round(rr)) > 1e-6:
+                    ctx.fail({"kind": "object-methods", "method": "recurrence_rate", "sparse_rqa": sparse},
+                             f"recurrence_rate() * N^2 = {rr} is not an integer", replay)
+                parts.append(f"{enc_vec(dd)} {enc_vec(vv)} {int(round(rr))}")
+            parts.append(enc_vec(res[False][0].white_vertline_dist()))
+            try:
+                res[True][0].white_vertline_dist()
+                parts.append("returned")
+            except NotImplementedError:
+                parts.append("raise")
+            mreqs.append(f"xmethods b64 {emb.shape[1]} {int(mv)} {enc_xmat(emb.tolist())} {enc_x(thr)}")
+            mimpl.append(" ".join(parts))
+            ctx.count(f"methods:missing_values={mv}")
+        except Exception as e:  # noqa
+            ctx.fail({"kind": "object-methods", "error": type(e).__name__},
+                     f"RQA methods raised {type(e).__name__}: {e}", replay)
         if mv:
             expv = oracle_lines_mv(mv_cells_rows(R, Mk), N)
             expd = [2 * x for x in oracle_lines_mv(mv_cells_diags(R, Mk), N)]
@@ -882,6 +1019,9 @@ def doubles(ctx, K, RecurrencePlot, rng, nprng, quick):
                              dict(replay, expected=exp, observed=got))
     ctx.correspond("model fixedThresholdX(binary64) == RecurrencePlot.recurrence_matrix() on series "
                    "with infinite / NaN samples", reqs, impl)
+    ctx.correspond("model of the methods diagline_dist / vertline_dist / recurrence_rate / "
+                   "white_vertline_dist (Python layer + generated kernels, binary64) == RecurrencePlot "
+                   "in both storage modes", mreqs, mimpl)
 
 
 def criteria_and_subclasses(ctx, rng, nprng, quick):
